@@ -3,6 +3,7 @@ random.Random seeded from VERIF_SEED, so a case replays exactly."""
 import random
 from fractions import Fraction
 
+import userfns
 from core import enc, q, user_fn_spec
 
 SR_POOL = [1, 7, 100, 2.4, 1e3, 12345.678, 1e6, 1e9, 5e10, 30, 250.5]
@@ -10,6 +11,19 @@ NAME_POOL = ["a", "b", "a1b", "x2y", "pulse", "pi2pulse", "x9y9z", "ramp", "wait
 USER_FNS = ["const", "lin2", "poly4", "pi2pulse", "x9y"]
 USER_ARITY = {"const": 1, "lin2": 2, "poly4": 4, "pi2pulse": 1, "x9y": 2}
 BUILTIN_ARITY = {"ramp": 2, "sine": 4, "gaussian": 4, "gsc": 4}
+
+
+def arbify(r, bops, p=0.35, keep_first=True):
+    """with probability p turn one ordinary segment of the blueprint ops (not the first one when keep_first) into a
+    PulseAtoms.arb_func segment: a registered user function and a registered keyword dict as its two arguments"""
+    cand = [o for o in bops if o["op"] == "bp.insert" and o["fn"] != "waituntil"]
+    if keep_first:
+        cand = cand[1:]
+    if cand and r.random() < p:
+        o = r.choice(cand)
+        o["fn"] = "arb"
+        o["args"] = [enc(userfns.ARB_FUNCS[r.choice([101, 102])]), enc(dict(userfns.KW_POOL[r.choice([201, 202, 203, 204])]))]
+    return bops
 
 
 class G:
@@ -54,6 +68,9 @@ class G:
         if kind in ("gaussian", "gsc"):
             d = n / SR
             return kind, [self.fnum(), self.r.uniform(0.05, 1) * d, self.r.uniform(-0.3, 0.3) * d, self.fnum(-1, 1)]
+        if kind == "arb":
+            # PulseAtoms.arb_func(func, kwargs): a registered user function and a registered keyword dict (opaque for the model)
+            return "arb", [userfns.ARB_FUNCS[self.r.choice([101, 102])], dict(userfns.KW_POOL[self.r.choice([201, 202, 203, 204])])]
         if kind == "user":
             name = self.r.choice(USER_FNS)
             return user_fn_spec(name), [self.fnum() for _ in range(USER_ARITY[name])]
@@ -222,7 +239,7 @@ class SeqGen:
                         bops += self.g.markers(bid, info)
                 if seg_markers:
                     names = canonical_names([basename(o["name"]["s"]) if o.get("name") else
-                                             ({"gsc": "gaussian_smooth_cutoff"}.get(o["fn"], o["fn"]) if isinstance(o["fn"], str) else o["fn"]["name"]).rstrip("0123456789")
+                                             ({"gsc": "gaussian_smooth_cutoff", "arb": "arb_func"}.get(o["fn"], o["fn"]) if isinstance(o["fn"], str) else o["fn"]["name"]).rstrip("0123456789")
                                              for o in bops if o["op"] == "bp.insert"])
                     bops += self.g.seg_marker_ops(bid, names, info)
                 ops += bops
